@@ -447,7 +447,7 @@ def list_replays(prop: str) -> List[str]:
 
 
 def write_violation(prop: str, v) -> str:
-    d = os.path.join(ROOT, 'out', 'violations', prop)
+    d = os.path.join(os.environ.get('VERIF_OUT_DIR') or os.path.join(ROOT, 'out'), 'violations', prop)
     os.makedirs(d, exist_ok=True)
     h = case_hash([v['part'], v['case'], v['bucket']])
     path = os.path.join(d, f"viol-{h}.json")
@@ -455,7 +455,7 @@ def write_violation(prop: str, v) -> str:
         json.dump({'property': prop, 'part': v['part'], 'case': v['case'], 'expect': 'pass',
                    'bucket': v['bucket'], 'discrepancies': _jsonable(v['discrepancies'])},
                   f, indent=1, sort_keys=True, default=repr)
-    return os.path.relpath(path, ROOT)
+    return os.path.relpath(path, ROOT) if path.startswith(ROOT + os.sep) else path
 
 
 def replay_file(check: Check, path: str, stats: Stats):
